@@ -40,6 +40,8 @@ Definition sx_body (s : sx) : option body :=
   | SList [SInt 4%Z; SInt bits] => Some (BFloat (Z.to_N bits))
   | SList [SInt 5%Z; SInt seed; SInt len; SInt mask] =>
       Some (BBytes (gen_bytes (Z.to_nat len) (Z.to_N seed) (Z.to_N mask)))
+  | SList [SInt 9%Z; d] => match sx_data d with Some v => Some (BProto v) | None => None end
+  | SList [SInt 10%Z; d] => match sx_data d with Some v => Some (BProto v) | None => None end
   | SList [SInt 7%Z] => Some (BBytes [])     (* []byte(nil) *)
   | SList [SInt 8%Z] => Some (BStr [])       (* "" *)
   | _ => None
@@ -62,6 +64,7 @@ Definition body_eqb (a b : body) : bool :=
   | BStr x, BStr y => bytes_eqb x y
   | BInt x, BInt y => Z.eqb x y
   | BFloat x, BFloat y => N.eqb x y
+  | BProto x, BProto y => bytes_eqb x y
   | _, _ => false
   end.
 
